@@ -232,7 +232,7 @@ theorem extrudeN_moves (w : Where) (k : Nat) (L : InfL) (hs : L.screen.length = 
     rfl
   | succ k ih =>
     have hnew : ((List.range (if w.horizontal then L.ny else L.nx)).map
-        (fun j => (⟨L.start, L.hist * 5 + w.code, j, L.par⟩ : Sym))).length = w.slice L.nx L.ny := by
+        (fun j => (⟨L.start, L.hist * 5 + w.code, j, L.par, L.plog⟩ : Sym))).length = w.slice L.nx L.ny := by
       simp [Where.slice]
     have hlen1 : (L.extrude1 w).screen.length = L.ny * L.nx := by
       simp only [InfL.extrude1]
